@@ -344,6 +344,9 @@ func c02mDoc(r *rand.Rand, t reflect.Type, depth int) string {
 		}
 		return strconv.FormatUint(r.Uint64()>>(64-bits), 10)
 	case reflect.String:
+		if r.Intn(3) == 0 {
+			return c02RandStringLit(r) // (audit) escapes of every class at any position: pairs, lone surrogates, both cases of the hex digits, long runs
+		}
 		return c02Strings[r.Intn(len(c02Strings))]
 	case reflect.Interface:
 		return genValue(r, 2)
@@ -380,6 +383,9 @@ func c02mDoc(r *rand.Rand, t reflect.Type, depth int) string {
 		var parts []string
 		for i := 0; i < n; i++ {
 			k := c02Strings[r.Intn(len(c02Strings))]
+			if r.Intn(4) == 0 {
+				k = c02RandStringLit(r)
+			}
 			if kk := t.Key().Kind(); kk != reflect.String {
 				// integer keys: mostly in range and as Marshal writes them; sometimes another spelling, the edge of the range, or no integer
 				bits := uint(t.Key().Bits())
@@ -433,6 +439,8 @@ func c02mDoc(r *rand.Rand, t reflect.Type, depth int) string {
 					b, _ := stdjson.Marshal(name[1:])
 					key = fmt.Sprintf(`"\u%04x%s`, name[0], string(b[1:]))
 				}
+			case 3:
+				key = c02EscapeSome(r, name, r.Intn(3) == 0) // (audit) escapes at any position of the key
 			}
 			parts = append(parts, key+c02WS(r)+":"+c02WS(r)+c02mDoc(r, t.Field(i).Type, depth+1))
 			if r.Intn(5) == 0 {
